@@ -17,7 +17,7 @@ LEVEL_TEXT = (
     'from that job. Does not compute that the visited set equals the reachable set for a given model.')
 
 FLOORS = {'C01-R1': 3, 'C01-R2': 3, 'C01-R3': 12, 'C01-R4': 5, 'C01-R5': 3, 'C01-R6': 12,
-          'C01-R7': 5, 'C01-R8': 6, 'C01-R9': 3}
+          'C01-R7': 5, 'C01-R8': 6, 'C01-R9': 3, 'C01-R10': 4}
 
 
 def new_edges(cb):
@@ -557,3 +557,7 @@ def run(ctx):
     ctx.doc('C01-R9', 'the visited set is only touched through single-call (atomic) insert-if-absent '
                       'arbitration, so no state is enqueued by two workers')
     c05.r8_atomic_arbitration(ctx, F, rule='C01-R9')
+    import c19
+    ctx.doc('C01-R10', 'worker-local job queues are (re)assigned only when empty; the on-demand worker appends '
+                       'processed/new jobs back to its pending queue')
+    c19.r5_worker_queue(ctx, F, rule='C01-R10', with_join=False)
